@@ -175,6 +175,21 @@ func (g *obGen) post(i int, hiddenBias bool) J {
 	default: // other activity types: id / store / outbox / deliver ordering
 		typ := Pick(r, []string{"Like", "Announce", "Follow", "Listen", "Arrive", "Accept", "Reject", "Block", "Add"})
 		a := J{"@context": asCtx, "type": typ, "actor": g.st.Alice.ID, "object": Pick(r, []string{g.st.RNote, g.st.Dave, g.st.Note1})}
+		if hiddenBias && r.Intn(3) == 0 && typ != "Arrive" {
+			// a mixed object list: references and embedded values (which may carry hidden recipients of their own)
+			emb := J{"type": "Note", "id": g.st.RNote + "/emb", "content": "embedded", "bto": Pick(r, g.actors)}
+			if r.Bool() {
+				emb["bcc"] = []string{Pick(r, g.actors)}
+			}
+			lst := []interface{}{a["object"], emb}
+			if r.Bool() {
+				lst = []interface{}{emb, a["object"]}
+			}
+			if r.Intn(3) == 0 {
+				lst = append(lst, g.st.Note2)
+			}
+			a["object"] = lst
+		}
 		if typ == "Add" {
 			a["target"] = g.st.Col1
 		}
@@ -252,6 +267,25 @@ func genOutbox(r *Rng, prop string, k int, tier string) *RunSpec {
 		}
 		reqs = append(reqs, rq)
 	}
+	if prop == "C02" && o.Social && r.Intn(5) == 0 {
+		// a second post from another outbox, overlapping with the first (any state shared between deliveries would show)
+		rq := outboxReq("r1", st.Carol, hostA, g.post(7, false))
+		reqs = append(reqs, rq)
+	}
+	if prop == "C03" && o.Social && r.Intn(4) == 0 {
+		// history: a client creates a note with hidden recipients, deletes it, and the Tombstone is fetched
+		reqs = nil
+		nb := J{"@context": asCtx, "type": "Note", "content": "short lived"}
+		g.addressAll(nb, true)
+		nb["bto"] = []string{Pick(r, g.actors)}
+		reqs = append(reqs, outboxReq("r0", st.Alice, hostA, nb))
+		noteID := fmt.Sprintf("https://%s/note/r0-2", hostA) // the id SimDB.NewID hands to the wrapped note (second id of task r0)
+		del := outboxReq("r1", st.Alice, hostA, J{"@context": asCtx, "type": "Delete", "actor": st.Alice.ID, "object": noteID, "to": Pick(r, g.actors)})
+		del.After = []string{"r0"}
+		get := handlerReq("r2", hostA, noteID)
+		get.After = []string{"r1"}
+		reqs = append(reqs, del, get)
+	}
 	if prop == "C03" {
 		// GETs of stored values with bto/bcc at object depth 0..4
 		depth := r.Intn(5)
@@ -289,10 +323,13 @@ func genOutbox(r *Rng, prop string, k int, tier string) *RunSpec {
 	if prop == "C03" && r.Intn(2) == 0 {
 		sp.Sched = SchedSpec{Strategy: "random", Seed: r.U64()} // GET concurrent with the delivery
 		for i := range sp.Requests {
-			if sp.Requests[i].Kind == "handler" {
+			if sp.Requests[i].Kind == "handler" && sp.Requests[i].ID != "r2" {
 				sp.Requests[i].After = nil
 			}
 		}
+	}
+	if prop == "C02" && len(sp.Requests) > 1 {
+		sp.Sched = SchedSpec{Strategy: Pick(r, []string{"random", "sticky", "pct"}), Seed: r.U64(), Depth: 2, Horizon: 150}
 	}
 	return sp
 }
